@@ -310,6 +310,8 @@ pub struct QGen<'a> {
     /// quote names so that no escape is needed (double quotes around a name containing ', single
     /// quotes otherwise): the spellings on which every faithful `get` agrees
     pub safe_quotes: bool,
+    /// allow the stub-only function `reenter` (only where both sides of a comparison are the stub)
+    pub reenter: bool,
 }
 
 impl<'a> QGen<'a> {
@@ -532,7 +534,7 @@ impl<'a> QGen<'a> {
     /// different between two documents that differ in one top-level member.
     pub fn root_dependent(&self, rng: &mut Rng) -> String {
         let pre = *rng.pick(&["$.elems", "$.list", "$..*", "$.*", "$.x.b", "$", "$.names"]);
-        let atom = match rng.below(13) {
+        let atom = match rng.below(if self.reenter { 13 } else { 11 }) {
             11 => "reenter(@)".to_string(),
             12 => "reenter(@) && @ != null".to_string(),
             8 => format!("{}(@, $.names)", rng.pick(&["in", "nin"])),
